@@ -533,6 +533,11 @@ func launchWorker(bin string, o *options, race bool, offset, stride int, only in
 	if o.tier == "thorough" {
 		hangTimeout = 10 * time.Minute
 	}
+	if v := os.Getenv("VERIF_HANG_TIMEOUT"); v != "" {
+		if d, err := time.ParseDuration(v); err == nil {
+			hangTimeout = d
+		}
+	}
 	stopWatch := make(chan struct{})
 	go func() {
 		tk := time.NewTicker(5 * time.Second)
